@@ -14,7 +14,8 @@
    order axioms: balance does not depend on the order being sensible), every
    operation list over any number of tree handles, every handle, no size bound.
    "After every Add or Remove": the theorems hold for all operation lists, hence
-   for every prefix of every history (BalanceHist.run_app). *)
+   for every prefix of every history; C02_balanced_after_every_op spells this
+   out (BalanceHist.run_app). *)
 From Typ Require Import Lib.Base Avl.Model Avl.Balance Avl.Fib Avl.BalanceHist Avl.Cost Avl.CostProofs.
 Local Open Scope Z_scope.
 
@@ -28,6 +29,14 @@ Theorem C02_rebalance_rotateLeft :
   height (node (node l v rl) rv rr) = height rl + 2.
 Proof. exact @rebalance_case_rotateLeft. Qed.
 Print Assumptions C02_rebalance_rotateLeft.
+(* the hypotheses are inhabited: l = (1), right child 4 with children (3) and 5->(6); the right
+   child leans right, single left rotation, result of height [height rl + 2] = 2 *)
+Example C02_rebalance_rotateLeft_example :
+  let l := leaf 1 in let rl := leaf 3 in let rr := N E 5 1 (leaf 6) in
+  inv l /\ inv (N rl 4 2 rr) /\ height (N rl 4 2 rr) = height l + 2 /\ height rl <= height rr /\
+  rebalance (node l 2 (N rl 4 2 rr)) = Ok (N (N (leaf 1) 2 1 (leaf 3)) 4 2 (N E 5 1 (leaf 6))) /\
+  node (node l 2 rl) 4 rr = N (N (leaf 1) 2 1 (leaf 3)) 4 2 (N E 5 1 (leaf 6)).
+Proof. cbv zeta. unfold inv, leaf. cbn [avl cached_ok height]. repeat split; try lia; vm_compute; reflexivity. Qed.
 
 Theorem C02_rebalance_rotateLeftRight :
   forall (A : Type) (l : tree) (v : A) (rll : tree) (rlv : A) (rlh : Z) (rlr : tree) (rv : A) (rh : Z) (rr : tree),
@@ -39,6 +48,15 @@ Theorem C02_rebalance_rotateLeftRight :
   height (node (node l v rll) rlv (node rlr rv rr)) = height l + 2.
 Proof. exact @rebalance_case_rotateLeftRight. Qed.
 Print Assumptions C02_rebalance_rotateLeftRight.
+(* inhabited: l = (1), right child 6 with left child 4->(3) (taller) and right child (7):
+   double rotation, 4 becomes the root, result of height [height l + 2] = 2 *)
+Example C02_rebalance_rotateLeftRight_example :
+  let l := leaf 1 in let rll := leaf 3 in let rlr := @E Z in let rr := leaf 7 in
+  inv l /\ inv (N (N rll 4 1 rlr) 6 2 rr) /\
+  height (N (N rll 4 1 rlr) 6 2 rr) = height l + 2 /\ height (N rll 4 1 rlr) > height rr /\
+  rebalance (node l 2 (N (N rll 4 1 rlr) 6 2 rr)) = Ok (N (N (leaf 1) 2 1 (leaf 3)) 4 2 (N E 6 1 (leaf 7))) /\
+  node (node l 2 rll) 4 (node rlr 6 rr) = N (N (leaf 1) 2 1 (leaf 3)) 4 2 (N E 6 1 (leaf 7)).
+Proof. cbv zeta. unfold inv, leaf. cbn [avl cached_ok height]. repeat split; try lia; vm_compute; reflexivity. Qed.
 
 Theorem C02_rebalance_rotateRight :
   forall (A : Type) (ll : tree) (lv : A) (lh : Z) (lr : tree) (v : A) (r : tree),
@@ -48,6 +66,14 @@ Theorem C02_rebalance_rotateRight :
   height (node ll lv (node lr v r)) = height lr + 2.
 Proof. exact @rebalance_case_rotateRight. Qed.
 Print Assumptions C02_rebalance_rotateRight.
+(* inhabited: left child 3 with children 2->(1) and (4), r = (6): the left child leans left,
+   single right rotation, result of height [height lr + 2] = 2 *)
+Example C02_rebalance_rotateRight_example :
+  let ll := N (leaf 1) 2 1 E in let lr := leaf 4 in let r := leaf 6 in
+  inv (N ll 3 2 lr) /\ inv r /\ height (N ll 3 2 lr) = height r + 2 /\ height lr <= height ll /\
+  rebalance (node (N ll 3 2 lr) 5 r) = Ok (N (N (leaf 1) 2 1 E) 3 2 (N (leaf 4) 5 1 (leaf 6))) /\
+  node ll 3 (node lr 5 r) = N (N (leaf 1) 2 1 E) 3 2 (N (leaf 4) 5 1 (leaf 6)).
+Proof. cbv zeta. unfold inv, leaf. cbn [avl cached_ok height]. repeat split; try lia; vm_compute; reflexivity. Qed.
 
 Theorem C02_rebalance_rotateRightLeft :
   forall (A : Type) (ll : tree) (lv : A) (lh : Z) (lrl : tree) (lrv : A) (lrh : Z) (lrr : tree) (v : A) (r : tree),
@@ -59,6 +85,15 @@ Theorem C02_rebalance_rotateRightLeft :
   height (node (node ll lv lrl) lrv (node lrr v r)) = height r + 2.
 Proof. exact @rebalance_case_rotateRightLeft. Qed.
 Print Assumptions C02_rebalance_rotateRightLeft.
+(* inhabited: left child 2 with left child (1) and right child 3->(4) (taller), r = (6):
+   double rotation, 3 becomes the root, result of height [height r + 2] = 2 *)
+Example C02_rebalance_rotateRightLeft_example :
+  let ll := leaf 1 in let lrl := @E Z in let lrr := leaf 4 in let r := leaf 6 in
+  inv (N ll 2 2 (N lrl 3 1 lrr)) /\ inv r /\
+  height (N ll 2 2 (N lrl 3 1 lrr)) = height r + 2 /\ height (N lrl 3 1 lrr) > height ll /\
+  rebalance (node (N ll 2 2 (N lrl 3 1 lrr)) 5 r) = Ok (N (N (leaf 1) 2 1 E) 3 2 (N (leaf 4) 5 1 (leaf 6))) /\
+  node (node ll 2 lrl) 3 (node lrr 5 r) = N (N (leaf 1) 2 1 E) 3 2 (N (leaf 4) 5 1 (leaf 6)).
+Proof. cbv zeta. unfold inv, leaf. cbn [avl cached_ok height]. repeat split; try lia; vm_compute; reflexivity. Qed.
 
 (* rebalance on a re-heighted node whose children satisfy inv and differ by at
    most two: no panic, inv restored, same nodes, height = the un-rebalanced
@@ -149,6 +184,21 @@ Theorem C02_history_balanced_and_shallow :
 Proof. exact @history_balanced. Qed.
 Print Assumptions C02_history_balanced_and_shallow.
 
+(* "after EVERY Add or Remove": a history [ops] passes, after its first k operations (any k), through
+   the state ts1 that the prefix [firstn k ops] reaches - the remaining operations continue from ts1 and
+   the outputs concatenate - and every tree of that intermediate state is balanced and shallow *)
+Theorem C02_balanced_after_every_op :
+  forall (A : Type) (eqb : A -> A -> bool) (cmp : A -> A -> Z) (ops : list op) (k : nat),
+  exists ts1 xs1 ts2 xs2,
+    run_history eqb cmp (firstn k ops) = (ts1, xs1) /\
+    run eqb cmp ts1 (skipn k ops) = (ts2, xs2) /\
+    run_history eqb cmp ops = (ts2, xs1 ++ xs2) /\
+    forall (h : nat) (t : Tree), nth_error ts1 h = Some t ->
+      avl (root t) /\ cached_ok (root t) /\ Tree_Len t = size (root t) /\
+      2 ^ (10000 * (height (root t) + 1)) <= (Tree_Len t + 2) ^ 14405.
+Proof. exact @history_balanced_after_every_op. Qed.
+Print Assumptions C02_balanced_after_every_op.
+
 (* ---- size and depth of any height-balanced tree ---- *)
 
 (* Fibonacci minimal trees *)
@@ -180,7 +230,12 @@ Print Assumptions C02_every_element_has_a_level.
    contains_cost / add_cost / remove_cost (Avl/Cost.v) are the model's functions
    returning in addition the number of comparator calls: same results, at most
    height+1 calls (one per level), hence at most 1.4405*log2(n+2) on a
-   height-balanced tree — the documented O(log n). *)
+   height-balanced tree — the documented O(log n). That the counters sit where
+   the code calls [compare] is not a theorem: it is tied to the code by the
+   harness, which counts the calls of the real code with a wrapping comparator
+   and compares them EXACTLY, op by op, with [run_calls] (Avl/Check.v check_calls).
+   Not counted: the == tests, rotations, height updates and the popLeftMost
+   descent of a two-children Remove (constant work per level). *)
 Theorem C02_cost :
   forall (A : Type) (eqb : A -> A -> bool) (cmp : A -> A -> Z) (value : A) (t : tree),
   fst (contains_cost eqb cmp value t) = contains eqb cmp value t /\
@@ -195,6 +250,36 @@ Theorem C02_cost :
    2 ^ (10000 * Z.of_nat (snd (remove_cost eqb cmp value t))) <= (size t + 2) ^ 14405).
 Proof. exact @cost_bound. Qed.
 Print Assumptions C02_cost.
+
+(* the same after ANY history, on any handle, at the Tree level (Tree.Contains/Add/Remove test
+   root == nil first): [op_calls] - the function Avl/Check.v compares EXACTLY with the number of
+   calls counted on the real code by a wrapping comparator - gives for an Add / Remove / Contains
+   issued in the state after [ops] at most height+1 calls and at most 1.4405*log2(Len+2) *)
+Theorem C02_cost_after_history :
+  forall (A : Type) (eqb : A -> A -> bool) (cmp : A -> A -> Z) (ops : list op) (h : nat) (value : A) (t : Tree),
+  nth_error (fst (run_history eqb cmp ops)) h = Some t ->
+  let ts := fst (run_history eqb cmp ops) in
+  op_calls eqb cmp ts (OpContains h value) = Some (Tree_Contains_calls eqb cmp t value) /\
+  op_calls eqb cmp ts (OpAdd h value) = Some (Tree_Add_calls cmp t value) /\
+  op_calls eqb cmp ts (OpRemove h value) = Some (Tree_Remove_calls eqb cmp t value) /\
+  Z.of_nat (Tree_Contains_calls eqb cmp t value) <= height (root t) + 1 /\
+  Z.of_nat (Tree_Add_calls cmp t value) <= height (root t) + 1 /\
+  Z.of_nat (Tree_Remove_calls eqb cmp t value) <= height (root t) + 1 /\
+  2 ^ (10000 * Z.of_nat (Tree_Contains_calls eqb cmp t value)) <= (Tree_Len t + 2) ^ 14405 /\
+  2 ^ (10000 * Z.of_nat (Tree_Add_calls cmp t value)) <= (Tree_Len t + 2) ^ 14405 /\
+  2 ^ (10000 * Z.of_nat (Tree_Remove_calls eqb cmp t value)) <= (Tree_Len t + 2) ^ 14405.
+Proof. exact @history_calls. Qed.
+Print Assumptions C02_cost_after_history.
+
+(* instance: after adds 1..7 (the perfect tree of 3 levels, handle 0 exists) the calls of every op of the
+   continuation Contains 7; Add 8; Remove 1; Remove 9 (absent); Len; Contains on a bad handle *)
+Example C02_cost_after_history_example :
+  (exists t, nth_error (fst (run_history Z.eqb zcompare (adds [1;2;3;4;5;6;7]))) 0 = Some t /\ Tree_Len t = 7) /\
+  run_calls Z.eqb zcompare [empty_Tree]
+    (adds [1;2;3;4;5;6;7] ++ [OpContains 0 7; OpAdd 0 8; OpRemove 0 1; OpRemove 0 9; OpLen 0; OpContains 3 1]) =
+    [Some 0; Some 1; Some 2; Some 2; Some 3; Some 3; Some 3;
+     Some 2; Some 3; Some 2; Some 2; Some 0; None]%nat.
+Proof. split; [eexists; split; vm_compute; reflexivity|vm_compute; reflexivity]. Qed.
 
 (* ---- non-vacuity: evaluated instances (adds, final_root: Avl/BalanceHist.v) ----
    sorted input 1..7 gives the perfect tree (single left rotations all the way);
